@@ -2,7 +2,9 @@ package corecheck
 
 import (
 	"context"
+	"encoding/json"
 	"fmt"
+	"reflect"
 	"strings"
 	"testing"
 
@@ -35,6 +37,25 @@ type PermCase struct {
 	// judged one (each is judged too): what an action learns from one
 	// machine's bindings must not decide what it does for another's
 	Warm []map[string]interface{} `json:"warm,omitempty"`
+	// Typed: the permanent binding "big!" holds a value of a Go type a
+	// host may well put there (a large int64, a json.Number, a []int64);
+	// the case data carries its JSON image, the real value is put in
+	// when the case runs.  "Previous value" means that very value.
+	Typed string `json:"typed,omitempty"`
+}
+
+const bigInt = int64(1700000000123456789)
+
+func typedValue(kind string) (real interface{}, jsonImage interface{}) {
+	switch kind {
+	case "int64":
+		return bigInt, float64(bigInt)
+	case "jsonNumber":
+		return json.Number("1700000000123456789"), float64(bigInt)
+	case "int64slice":
+		return []int64{bigInt, 2}, []interface{}{float64(bigInt), 2.0}
+	}
+	return nil, nil
 }
 
 var permKeys = []string{"cfg!", "id!", "!", "a!b!", "x", "y", "n", "!lead", "?p!"}
@@ -80,6 +101,10 @@ func genPerm(t *rapid.T) PermCase {
 		}
 		c.Warm = append(c.Warm, w)
 	}
+	if rapid.IntRange(0, 4).Draw(t, "typed") == 0 {
+		c.Typed = rapid.SampledFrom([]string{"int64", "jsonNumber", "int64slice"}).Draw(t, "typedKind")
+		_, c.Bs["big!"] = typedValue(c.Typed)
+	}
 	c.InPlace = (c.Native || c.GuardNative) && rapid.Bool().Draw(t, "inplace")
 	c.Direct = c.Guard == nil && rapid.IntRange(0, 3).Draw(t, "direct") == 0
 	return c
@@ -111,6 +136,17 @@ func permanents(bs map[string]interface{}) map[string]interface{} {
 	return out
 }
 
+// untyped: the bindings whose JSON image is their value (the typed
+// permanent binding is compared separately, as the Go value it is).
+func untyped(c PermCase) map[string]interface{} {
+	if c.Typed == "" {
+		return c.Bs
+	}
+	out := jsongen.CopyMap(c.Bs)
+	delete(out, "big!")
+	return out
+}
+
 func checkPermanentsIn(before map[string]interface{}, after match.Bindings, what string, v *ev.Verdict) bool {
 	for k, want := range permanents(before) {
 		got, have := after[k]
@@ -137,6 +173,7 @@ func checkPerm(c PermCase) (v ev.Verdict) {
 	for i, w := range c.Warm {
 		wc := c
 		wc.Bs = w
+		wc.Typed = ""
 		if c.PatternVar {
 			if _, have := wc.Bs["x"]; !have {
 				wc.Bs = jsongen.CopyMap(w)
@@ -184,6 +221,10 @@ func checkPermOn(c PermCase, a *sm.ASpec, spec *core.Spec) (v ev.Verdict) {
 		v.Class("direct-exec")
 		act := spec.Nodes["start"].Action
 		given := match.Bindings(jsongen.CopyMap(c.Bs))
+		real, _ := typedValue(c.Typed)
+		if real != nil {
+			given["big!"] = real
+		}
 		var exe *core.Execution
 		var xerr error
 		if p := trap(func() { exe, xerr = act.Exec(context.Background(), given, nil) }); p != "" {
@@ -192,13 +233,22 @@ func checkPermOn(c PermCase, a *sm.ASpec, spec *core.Spec) (v ev.Verdict) {
 		}
 		if xerr == nil && exe != nil && exe.Bs != nil {
 			v.Class("returned-bindings")
-			checkPermanentsIn(c.Bs, exe.Bs, "Action.Exec result", &v)
+			if checkPermanentsIn(untyped(c), exe.Bs, "Action.Exec result", &v) && real != nil {
+				v.Class("typed-permanent")
+				if !reflect.DeepEqual(exe.Bs["big!"], real) {
+					v.Failf("Action.Exec result: permanent binding \"big!\" was %#v (%T) and is now %#v (%T)", real, real, exe.Bs["big!"], exe.Bs["big!"])
+				}
+			}
 		} else {
 			v.Class("no-bindings-returned")
 		}
 		return
 	}
 	st := &core.State{NodeName: "start", Bs: match.Bindings(jsongen.CopyMap(c.Bs))}
+	real, _ := typedValue(c.Typed)
+	if real != nil {
+		st.Bs["big!"] = real
+	}
 	var stride *core.Stride
 	var serr error
 	if p := trap(func() { stride, serr = spec.Step(context.Background(), st, nil, nil, nil) }); p != "" {
@@ -223,7 +273,12 @@ func checkPermOn(c PermCase, a *sm.ASpec, spec *core.Spec) (v ev.Verdict) {
 		v.Class("action-returned-null(unjudged)")
 		return
 	}
-	checkPermanentsIn(c.Bs, stride.To.Bs, "state after the step", &v)
+	if checkPermanentsIn(untyped(c), stride.To.Bs, "state after the step", &v) && real != nil {
+		v.Class("typed-permanent")
+		if !reflect.DeepEqual(stride.To.Bs["big!"], real) {
+			v.Failf("state after the step: permanent binding \"big!\" was %#v (%T) and is now %#v (%T)", real, real, stride.To.Bs["big!"], stride.To.Bs["big!"])
+		}
+	}
 	return
 }
 
